@@ -55,7 +55,18 @@ def read_graph(graph_raw) -> nx.DiGraph:
     header_lines = []
     constraint_subpaths = []       # list of subpaths, each a list of (u,v) edge tuples
     subpaths_seen = set()          # set of full node sequences (tuples) to filter duplicate subpaths
-    while idx < len(graph_raw) and graph_raw[idx].lstrip().startswith("#"):
+    while idx < len(graph_raw):
+        if graph_raw[idx].strip() == "":
+            # A blank line between two header lines belongs to the header
+            nxt = idx
+            while nxt < len(graph_raw) and graph_raw[nxt].strip() == "":
+                nxt += 1
+            if nxt < len(graph_raw) and graph_raw[nxt].lstrip().startswith("#"):
+                idx = nxt
+                continue
+            break
+        if not graph_raw[idx].lstrip().startswith("#"):
+            break
         stripped = graph_raw[idx].lstrip()
         # Subpath constraint line: starts with '#S'
         if stripped.startswith("#S"):
@@ -171,8 +182,18 @@ def read_graphs(filename):
         start = i
 
         # Consume all consecutive header lines for this graph
-        while i < n_lines and lines[i].lstrip().startswith('#'):
-            i += 1
+        while i < n_lines:
+            if lines[i].lstrip().startswith('#'):
+                i += 1
+                continue
+            # a blank line followed (after further blank lines) by another header line still belongs to the header
+            k = i
+            while k < n_lines and lines[k].strip() == "":
+                k += 1
+            if k > i and k < n_lines and lines[k].lstrip().startswith('#'):
+                i = k
+                continue
+            break
 
         # Advance until the next header line (start of next graph) or EOF
         j = i
